@@ -785,10 +785,60 @@ def r4_attrs(L, repo, es):
             raise AnalysisError("C14.R4: cannot derive the precondition of %s on attribute %s" % (desc, a))
         for st in stores[a]:
             ok, fl = (True, ["use site guarded"]) if use_ok else store_establishes(st, need, repo)
+            if not ok and st.func.endswith("ctrl_cmd_handler") and need[0] in ("ge0", "ne0", "range"):
+                ok2, why2 = _store_fold(repo, a, need)
+                if ok2:
+                    ok, fl = True, [why2]
             L.ob("C14.R4", st.mod.rel, st.func,
                  "`%s` is stored from a received integer and later used by %s: needs %s" % (a, desc, need_txt(need)),
                  "established where stored or guarded where used", fl, ok, st.node.lineno)
     L.floor("C14.R4", "partial operations on sanitisable attributes", n, 5)
+
+
+def _store_fold(repo, attr, need):
+    """The guard that establishes the precondition may sit in a helper and reach the store through a correlated value
+    (`params = None if threshold < 0 else (base, threshold)` ... `if params is None: return`): decide by folding the
+    simulation command handler for every documented FAKE_* / SETTA form over sign / boundary witnesses of each argument -
+    whatever the handler leaves in the attribute satisfies the precondition (the handler's decisions on an integer
+    argument are comparisons with small constants: piecewise constant between the witnesses)."""
+    import itertools
+    import json as _json
+    from cmdfold import fold_fake_cmd
+    VERIF_ = os.path.dirname(os.path.dirname(os.path.dirname(os.path.abspath(__file__))))
+    try:
+        spec = _json.load(open(os.path.join(VERIF_, "spec", "trxc.json")))
+    except (OSError, ValueError):
+        return False, None
+    wit = ["-70000", "-2", "-1", "0", "1", "2", "70000"]
+
+    def sat(v):
+        if not isinstance(v, int) or isinstance(v, bool):
+            return False
+        if need[0] == "ge0":
+            return v >= 0
+        if need[0] == "ne0":
+            return v != 0
+        return need[1] <= v <= need[2]
+    good = 5 if need[0] != "range" else need[1]
+    n = 0
+    for verb, d in sorted(spec["verbs"].items()):
+        if not (verb.startswith("FAKE_") or verb == "SETTA"):
+            continue
+        for argc in (d.get("argc") or [d.get("min", 0)]):
+            if argc > 2:
+                continue
+            for args in itertools.product(wit, repeat=argc):
+                try:
+                    f = fold_fake_cmd(repo, [verb] + list(args), {"self." + attr: good})
+                except AnalysisError:
+                    return False, None
+                n += 1
+                v = f.env.get("self." + attr, good)
+                if not sat(v):
+                    return False, None
+    if n < 20:
+        return False, None
+    return True, "decided by folding the handler for %d command / argument witnesses: `%s` always satisfies it afterwards" % (n, attr)
 
 
 def need_txt(need):
@@ -809,9 +859,43 @@ def r5_capture(L, repo):
             # parse_hdr's unpack is total when every call site passes a buffer of the checked header length
             if s.kind == "unpack" and s.func.endswith("parse_hdr"):
                 return hdr_len_proof(repo, ci)
+            if s.kind == "unpack":
+                return slice_len_proof(s, repo, ci)
             return None
         n = report_sites(L, "C14.R5", es, repo, "capture reader (%s)" % entry, accept)
         L.floor("C14.R5", "partial operations in the capture reader", n, 3)
+
+
+def slice_len_proof(s, repo, ci):
+    """`struct.unpack(<fmt>, X[a:b])` is total when `len(X) == HDR_LENGTH` holds on every path to it, the constant slice
+    lies inside that length and has exactly the size the format needs"""
+    import struct as _struct
+    call = s.node
+    if not (isinstance(call, ast.Call) and len(call.args) == 2 and isinstance(call.args[0], ast.Constant) and isinstance(call.args[0].value, str)):
+        return None
+    buf = call.args[1]
+    if not (isinstance(buf, ast.Subscript) and isinstance(buf.slice, ast.Slice) and isinstance(buf.value, ast.Name) and buf.slice.step is None):
+        return None
+    try:
+        a = fold(repo, ci.mod, buf.slice.lower, self_cls=ci) if buf.slice.lower is not None else 0
+        b = fold(repo, ci.mod, buf.slice.upper, self_cls=ci) if buf.slice.upper is not None else None
+        hl = fold(repo, ci.mod, ast.parse("self.HDR_LENGTH", mode="eval").body, self_cls=ci)
+        need = _struct.calcsize(call.args[0].value)
+    except (Unknown, Raised, _struct.error):
+        return None
+    fd = enclosing_func(call)
+    if fd is None or isinstance(fd, ast.Lambda) or not all(isinstance(x, int) for x in (a, b, hl)):
+        return None
+    cfg = CFG(fd)
+    try:
+        lits = guard_literals(cfg, cfg.node_of(call))
+    except AnalysisError:
+        return None
+    x, y = sorted(["len(%s)" % buf.value.id, "self.HDR_LENGTH"])
+    if ("%s == %s" % (x, y), True) in lits and 0 <= a < b <= hl and b - a == need:
+        return "len(%s) == HDR_LENGTH (%d) dominates the unpack and the slice [%d:%d] has the %d octets `%s` needs" % (
+            buf.value.id, hl, a, b, need, call.args[0].value)
+    return None
 
 
 def hdr_len_proof(repo, ci):
